@@ -76,6 +76,18 @@ StreamCodes(calls) ==
 CenterOffsets(c, sz) ==
   { <<c[1] - dx, c[2] - dy>> : dx \in {(sz[1] - 1) \div 2, sz[1] \div 2}, dy \in {(sz[2] - 1) \div 2, sz[2] \div 2} }
 
+\* Sufficient condition for SemCodes(calls, o, sz, want) = {} that is cheap to evaluate: a single
+\* call that paints the box row by row (a colour stream over exactly the box, or a pixel list in
+\* row-major order).  exp = the wanted colours in row-major order.  Anything else is judged by
+\* SemCodes itself.
+FastSem(calls, o, sz, exp) ==
+  /\ Len(calls) = 1
+  /\ LET c == calls[1]  k == Len(exp) IN
+     \/ /\ c.m = "fc" /\ c.area = <<o[1], o[2], sz[1], sz[2]>> /\ c.n >= k /\ Len(c.cs) >= k
+        /\ SubSeq(c.cs, 1, k) = exp
+     \/ /\ c.m = "di" /\ Len(c.px) = k
+        /\ c.px = [i \in 1..k |-> <<o[1] + ((i - 1) % sz[1]), o[2] + ((i - 1) \div sz[1]), exp[i]>>]
+
 \* Image::new(d, at) [mode 0] / Image::with_center(d, at) [mode 1] of the drawable
 \* d = img.sub_image(areas[1]).sub_image(areas[2])..., which reported size(), was drawn and the
 \* target saw `calls`
@@ -85,13 +97,15 @@ DrawFails(img, areas, mode, at, size, calls) ==
       sz  == abs[2]
       empty == sz[1] = 0 \/ sz[2] = 0
       want(q) == Pixel(img, <<off[1] + q[1], off[2] + q[2]>>)
+      exp == [i \in 1..(sz[1] * sz[2]) |-> Pixel(img, <<off[1] + ((i - 1) % sz[1]), off[2] + ((i - 1) \div sz[1])>>)]
       o0 == IF mode = 0 THEN at ELSE <<at[1] - ((sz[1] - 1) \div 2), at[2] - ((sz[2] - 1) \div 2)>>
-      c0 == SemCodes(calls, o0, sz, want)
   IN   (IF (empty /\ (size[1] = 0 \/ size[2] = 0)) \/ (~empty /\ size = sz) THEN {} ELSE {"size"})
   \cup (IF \E i \in 1..Len(calls) : calls[i].m = "clear" THEN {"clear_called"} ELSE {})
   \cup StreamCodes(calls)
   \cup (IF empty THEN (IF Touched(calls) = {} THEN {} ELSE {"touches_outside"})
-        ELSE IF c0 = {} THEN {}
-        ELSE IF mode = 1 /\ \E o \in CenterOffsets(at, sz) : SemCodes(calls, o, sz, want) = {} THEN {}
-        ELSE c0)
+        ELSE IF FastSem(calls, o0, sz, exp) THEN {}
+        ELSE LET c0 == SemCodes(calls, o0, sz, want) IN
+             IF c0 = {} THEN {}
+             ELSE IF mode = 1 /\ \E o \in CenterOffsets(at, sz) : SemCodes(calls, o, sz, want) = {} THEN {}
+             ELSE c0)
 =============================================================================
